@@ -362,7 +362,7 @@ def worker(ctx, job):
 
 def main(tier, seed=0):
     quick = tier == "quick"
-    depth = 4 if quick else 6
+    depth = 4 if quick else 5
     jobs = [{"kind": "lockstep", "first": a, "depth": depth} for a in ACTIONS]
     mlen = 3
     progs = [list(p) for n in range(1, mlen + 1) for p in itertools.product(MIXED, repeat=n)]
